@@ -573,7 +573,16 @@ def _p_normpath(path):
     for n, c in enumerate(new): out = out + ('/' if n else '') + c
     if initial: out = '/' * initial + out
     return out if len(out) else '.'
-_PATH_SHIMS = dict(isabs=_p_isabs, split=_p_split, basename=_p_basename, dirname=_p_dirname, join=_p_join, fspath=_p_fspath, normpath=_p_normpath)
+def _p_splitdrive(p): return ('', p)
+def _p_splitext(p):
+    i = p.rfind('.'); j = p.rfind('/')
+    if i > j:
+        k = j + 1
+        while k < i:
+            if bool(p[k] != '.'): return p[:i], p[i:]
+            k += 1
+    return p, ''
+_PATH_SHIMS = dict(splitdrive=_p_splitdrive, splitext=_p_splitext, isabs=_p_isabs, split=_p_split, basename=_p_basename, dirname=_p_dirname, join=_p_join, fspath=_p_fspath, normpath=_p_normpath)
 
 def sx_set(*items):
     if _anysym(items): return SymSet(items)
